@@ -820,14 +820,22 @@ func (x *bitCtx) checkOperators() {
 	if pkg := c.ssaPkg(relI); pkg != nil {
 		okTab := false
 		for _, f := range c.funcsOf(relI) {
-			if !strings.HasPrefix(f.Name(), "init") {
+			if !strings.HasPrefix(f.Name(), "init") && !c.isNewHelper(f) {
 				continue
 			}
 			traces, _ := c.Trace(f, TraceConfig{})
 			for _, t := range traces {
 				for _, e := range t.Events {
 					if e.Kind == EvStore && e.Gen {
-						if idx, isTab := x.isTabCell(e.Addr); isTab {
+						idx, isTab := x.isTabCell(e.Addr)
+						if !isTab && e.Addr.Kind == KIndexAddr && e.Addr.Args[0].Kind == KAlloc && e.Addr.Args[0].Typ != nil && x.tab.Type() != nil {
+							// the table built in a local of the table's type by a function introduced for the purpose
+							// (`var u64Tab = newMaskTab()`)
+							if pt, isP := e.Addr.Args[0].Typ.(*types.Pointer); isP && types.Identical(pt.Elem(), x.tab.Type().(*types.Pointer).Elem()) {
+								idx, isTab = e.Addr.Args[1], true
+							}
+						}
+						if isTab {
 							v := e.Val
 							if v.Kind == KBin && v.Op == token.SHL {
 								one, isC := v.Args[0].intConst()
